@@ -1,6 +1,9 @@
-(* C02 — proofs about the model (see Properties.v for the exported statements). *)
-From Coq Require Import List ZArith Bool Lia.
-From Verif Require Import C02.Model C02.Spec.
+(* C02 — redistribution satisfies every clause of the specification (see Properties.v for
+   the exported statements).  Proofs_Hamilton: the largest-remainder split; Proofs_Iterate:
+   the run relation of iterationForRedistribution and its invariants; Proofs_Perm:
+   independence of the input order. *)
+From Coq Require Import List ZArith Bool Lia Permutation.
+From Verif Require Import C02.Model C02.Spec C02.Proofs_Hamilton C02.Proofs_Iterate.
 Import ListNotations.
 Open Scope Z_scope.
 
@@ -10,4 +13,330 @@ Proof.
   unfold init_runtime, needs_adjust.
   destruct (eff_min n <? request n) eqn:E; [apply Z.ltb_lt in E|apply Z.ltb_ge in E];
   destruct (lend n); lia.
+Qed.
+
+Lemma init_runtime_nolend n : lend n = false -> init_runtime n = eff_min n.
+Proof. intro E. unfold init_runtime. rewrite E. destruct (needs_adjust n); reflexivity. Qed.
+
+Lemma needs_adjust_true n :
+  needs_adjust n = true -> init_runtime n = eff_min n /\ eff_min n < request n.
+Proof.
+  intro E. unfold init_runtime. rewrite E. split; [reflexivity|].
+  unfold needs_adjust in E. apply Z.ltb_lt in E. exact E.
+Qed.
+
+Lemma needs_adjust_false n : needs_adjust n = false -> request n <= eff_min n.
+Proof. unfold needs_adjust. apply Z.ltb_ge. Qed.
+
+(* ---------- the pieces of [redistribution] ---------- *)
+Definition init_es (ns : list node) : list entry := map (fun n => (n, init_runtime n)) ns.
+Definition adj_es (ns : list node) : list entry :=
+  filter (fun e => needs_adjust (fst e)) (init_es ns).
+Definition rest_es (ns : list node) : list entry :=
+  filter (fun e => negb (needs_adjust (fst e))) (init_es ns).
+Definition to_part (total : Z) (ns : list node) : Z := total - sumZ (map snd (init_es ns)).
+
+Lemma redistribution_eq total ns :
+  redistribution total ns =
+  if 0 <? to_part total ns
+  then rest_es ns ++ iterate (S (length (adj_es ns))) (to_part total ns) (wsum (adj_es ns)) (adj_es ns)
+  else init_es ns.
+Proof. reflexivity. Qed.
+
+Lemma init_fst ns : map fst (init_es ns) = ns.
+Proof. unfold init_es. rewrite map_map. cbn [fst]. apply map_id. Qed.
+
+Lemma init_snd ns : map snd (init_es ns) = map init_runtime ns.
+Proof. unfold init_es. rewrite map_map. reflexivity. Qed.
+
+Lemma init_ename ns : map ename (init_es ns) = map nm ns.
+Proof. rewrite ename_map, init_fst. reflexivity. Qed.
+
+Lemma init_In ns e : In e (init_es ns) <-> In (fst e) ns /\ snd e = init_runtime (fst e).
+Proof.
+  unfold init_es. rewrite in_map_iff. split.
+  - intros [n [<- Hn]]. cbn [fst snd]. auto.
+  - intros [H1 H2]. exists (fst e). split; [|exact H1].
+    rewrite <- H2. symmetry. apply surjective_pairing.
+Qed.
+
+Lemma adj_In ns e :
+  In e (adj_es ns) <-> In (fst e) ns /\ snd e = init_runtime (fst e) /\ needs_adjust (fst e) = true.
+Proof. unfold adj_es. rewrite filter_In, init_In. tauto. Qed.
+
+Lemma rest_In ns e :
+  In e (rest_es ns) <-> In (fst e) ns /\ snd e = init_runtime (fst e) /\ needs_adjust (fst e) = false.
+Proof.
+  unfold rest_es. rewrite filter_In, init_In. destruct (needs_adjust (fst e)); cbn; intuition congruence.
+Qed.
+
+Lemma adj_rest_perm ns : Permutation (init_es ns) (adj_es ns ++ rest_es ns).
+Proof. apply filter_partition_perm. Qed.
+
+Lemma adj_length ns : (length (adj_es ns) <= length ns)%nat.
+Proof.
+  unfold adj_es. etransitivity; [apply filter_length_le|].
+  unfold init_es. rewrite map_length. reflexivity.
+Qed.
+
+Lemma adj_unsat ns : all_unsat (adj_es ns).
+Proof.
+  intros e He. apply adj_In in He. destruct He as [_ [Hs Hn]].
+  apply needs_adjust_true in Hn. apply unsat_true. lia.
+Qed.
+
+Lemma Pre_adj ns : wnn ns -> NoDup (map nm ns) -> Pre (wsum (adj_es ns)) (adj_es ns).
+Proof.
+  intros Hnn Hnd. split.
+  - intros n Hn. apply in_map_iff in Hn. destruct Hn as [e [<- He]].
+    apply adj_In in He. apply Hnn, He.
+  - reflexivity.
+  - unfold adj_es. apply NoDup_map_filter. rewrite init_ename. exact Hnd.
+  - apply adj_unsat.
+Qed.
+
+Lemma in_range_wnn total ns : in_range total ns = true -> wnn ns.
+Proof.
+  unfold in_range. intros H n Hn.
+  repeat (apply andb_prop in H; destruct H as [H ?]).
+  match goal with H : forallb node_ok ns = true |- _ => rewrite forallb_forall in H; specialize (H n Hn) end.
+  unfold node_ok in *.
+  repeat match goal with H : _ && _ = true |- _ => apply andb_prop in H; destruct H end.
+  match goal with H : (0 <=? weight n) = true |- _ => apply Z.leb_le in H; exact H end.
+Qed.
+
+Lemma in_range_total total ns : in_range total ns = true -> 0 <= total.
+Proof.
+  unfold in_range. intros H.
+  repeat (apply andb_prop in H; destruct H as [H ?]). apply Z.leb_le in H. exact H.
+Qed.
+
+(* ---------- the result holds the same nodes, each once ---------- *)
+Lemma redistribution_fst_perm total ns : Permutation (map fst (redistribution total ns)) ns.
+Proof.
+  rewrite redistribution_eq. destruct (0 <? to_part total ns).
+  - rewrite map_app.
+    eapply Permutation_trans;
+      [apply Permutation_app_head, (iter_fst_perm _ _ _ _ _ (iterate_Iter _ _ _ _))|].
+    rewrite <- map_app. apply Permutation_trans with (map fst (init_es ns));
+      [|rewrite init_fst; apply Permutation_refl].
+    apply Permutation_map.
+    eapply Permutation_trans; [apply Permutation_app_comm|].
+    apply Permutation_sym, adj_rest_perm.
+  - rewrite init_fst. apply Permutation_refl.
+Qed.
+
+Lemma redistribution_nodup total ns :
+  NoDup (map nm ns) -> NoDup (map ename (redistribution total ns)).
+Proof.
+  intro H. rewrite ename_map. eapply Permutation_NoDup; [|exact H].
+  apply Permutation_map, Permutation_sym, redistribution_fst_perm.
+Qed.
+
+(* ---------- lookups by name ---------- *)
+Definition rt (es : list entry) (k : Z) : Z :=
+  match runtime_of k es with Some r => r | None => -1 end.
+
+Lemma runtime_of_In es n r :
+  NoDup (map ename es) -> In (n, r) es -> runtime_of (nm n) es = Some r.
+Proof.
+  induction es as [|e es IH]; intros Hnd Hin; [destruct Hin|].
+  cbn [map] in Hnd. inversion Hnd as [|? ? Hnin Hnd']; subst.
+  cbn [runtime_of]. destruct (nm (fst e) =? nm n) eqn:E.
+  - apply Z.eqb_eq in E. destruct Hin as [->|Hin]; [reflexivity|].
+    exfalso. apply Hnin. unfold ename at 1. rewrite E.
+    change (nm n) with (ename (n, r)). apply in_map, Hin.
+  - apply Z.eqb_neq in E. destruct Hin as [->|Hin]; [cbn [fst] in E; congruence|].
+    apply IH; assumption.
+Qed.
+
+Lemma rt_In es n r : NoDup (map ename es) -> In (n, r) es -> rt es (nm n) = r.
+Proof. intros Hnd Hin. unfold rt. rewrite (runtime_of_In es n r Hnd Hin). reflexivity. Qed.
+
+Lemma obs_of_length ns es : length (obs_of ns es) = length ns.
+Proof. unfold obs_of. rewrite !map_length, seq_length. reflexivity. Qed.
+
+Lemma obs_get_obs_of ns es n :
+  1 <= nm n <= Z.of_nat (length ns) -> obs_get (obs_of ns es) n = rt es (nm n).
+Proof.
+  intro Hr. unfold obs_get, obs_of.
+  set (F := fun k => match runtime_of k es with Some r => r | None => -1 end).
+  set (i := (Z.to_nat (nm n) - 1)%nat).
+  assert (Hi : (i < length ns)%nat) by (unfold i; lia).
+  rewrite (nth_indep _ (-1) (F (Z.of_nat 0))) by (rewrite !map_length, seq_length; exact Hi).
+  rewrite map_map. rewrite (map_nth (fun x => F (Z.of_nat x))).
+  rewrite seq_nth by exact Hi. unfold rt, F. f_equal. unfold i. lia.
+Qed.
+
+Lemma obs_sum ns es :
+  names_ok ns -> Permutation (map fst es) ns ->
+  sumZ (map (obs_get (obs_of ns es)) ns) = sumZ (map snd es).
+Proof.
+  intros [Hnd Hr] HP.
+  rewrite (sumZ_map_ext _ (fun n => rt es (nm n))).
+  2:{ intros n Hn. apply obs_get_obs_of, Hr, Hn. }
+  rewrite <- (sumZ_map_perm _ _ _ HP). rewrite map_map.
+  apply sumZ_map_ext. intros e He.
+  apply rt_In; [|rewrite <- surjective_pairing; exact He].
+  rewrite ename_map. eapply Permutation_NoDup; [|exact Hnd].
+  apply Permutation_map, Permutation_sym, HP.
+Qed.
+
+(* ---------- every sibling has an entry in the result, with its bounds ---------- *)
+Lemma redistribution_entry total ns n :
+  In n ns ->
+  exists r, In (n, r) (redistribution total ns)
+    /\ Z.min (request n) (eff_min n) <= r <= Z.max (request n) (eff_min n)
+    /\ (lend n = false -> eff_min n <= r)
+    /\ (needs_adjust n = true -> eff_min n <= r <= request n)
+    /\ (needs_adjust n = false -> r = init_runtime n).
+Proof.
+  intro Hn. rewrite redistribution_eq.
+  pose proof (init_runtime_bounds n) as Hb.
+  destruct (0 <? to_part total ns).
+  - destruct (needs_adjust n) eqn:E.
+    + assert (He : In (n, init_runtime n) (adj_es ns)) by (apply adj_In; cbn [fst snd]; auto).
+      destruct (iter_bounds _ _ _ _ _ (iterate_Iter _ _ _ _) (adj_unsat ns) _ He) as [r [Hr Hrb]].
+      cbn [fst snd] in Hr, Hrb. apply needs_adjust_true in E. destruct E as [E1 E2].
+      exists r. split; [apply in_or_app; right; exact Hr|].
+      repeat split; intros; try lia; try congruence.
+    + exists (init_runtime n). split.
+      * apply in_or_app. left. apply rest_In. cbn [fst snd]. auto.
+      * repeat split; intros; try lia; try congruence.
+        rewrite init_runtime_nolend by assumption. lia.
+  - exists (init_runtime n). split; [apply init_In; cbn [fst snd]; auto|].
+    repeat split; intros; try lia; try congruence.
+    + rewrite init_runtime_nolend by assumption. lia.
+    + match goal with H : needs_adjust n = true |- _ => apply needs_adjust_true in H end. lia.
+    + match goal with H : needs_adjust n = true |- _ => apply needs_adjust_true in H end. lia.
+Qed.
+
+Lemma obs_get_redistribution total ns n r :
+  names_ok ns -> In n ns -> In (n, r) (redistribution total ns) ->
+  obs_get (obs_of ns (redistribution total ns)) n = r.
+Proof.
+  intros [Hnd Hr] Hn Hin. rewrite obs_get_obs_of by (apply Hr, Hn).
+  apply rt_In; [apply redistribution_nodup, Hnd|exact Hin].
+Qed.
+
+(* clause 1/2 *)
+Lemma bounds_proved total ns :
+  names_ok ns -> forall n, In n ns -> bounds_ok (obs_of ns (redistribution total ns)) n.
+Proof.
+  intros Hok n Hn. destruct (redistribution_entry total ns n Hn) as [r [Hin [Hb [Hl _]]]].
+  unfold bounds_ok. rewrite (obs_get_redistribution total ns n r Hok Hn Hin). auto.
+Qed.
+
+Lemma redistribution_sum total ns :
+  names_ok ns ->
+  sumZ (map (obs_get (obs_of ns (redistribution total ns))) ns)
+  = sumZ (map snd (redistribution total ns)).
+Proof. intro Hok. apply obs_sum; [exact Hok|apply redistribution_fst_perm]. Qed.
+
+Lemma init_split_sum ns :
+  sumZ (map snd (rest_es ns)) + sumZ (map snd (adj_es ns)) = sumZ (map init_runtime ns).
+Proof.
+  rewrite <- init_snd, (sumZ_map_perm snd _ _ (adj_rest_perm ns)), map_app, sumZ_app. lia.
+Qed.
+
+Lemma to_part_eq total ns : to_part total ns = total - sumZ (map init_runtime ns).
+Proof. unfold to_part. rewrite init_snd. reflexivity. Qed.
+
+(* clause 3 *)
+Lemma conservation_proved total ns :
+  wnn ns -> names_ok ns -> conservation_ok total ns (obs_of ns (redistribution total ns)).
+Proof.
+  intros Hnn Hok Hfit. rewrite (redistribution_sum total ns Hok), redistribution_eq.
+  pose proof (to_part_eq total ns) as HT.
+  destruct (0 <? to_part total ns) eqn:E.
+  - apply Z.ltb_lt in E. rewrite map_app, sumZ_app.
+    pose proof (iter_sum_le _ _ _ _ _ (iterate_Iter (S (length (adj_es ns))) (to_part total ns)
+                  (wsum (adj_es ns)) (adj_es ns)) (Z.lt_le_incl _ _ E) (Pre_adj ns Hnn (proj1 Hok))).
+    pose proof (init_split_sum ns). lia.
+  - rewrite init_snd. lia.
+Qed.
+
+(* clause 4 *)
+Lemma work_conserving_proved total ns :
+  wnn ns -> names_ok ns -> work_conserving total ns (obs_of ns (redistribution total ns)).
+Proof.
+  intros Hnn Hok Hfit.
+  pose proof (to_part_eq total ns) as HT.
+  destruct (0 <? to_part total ns) eqn:E.
+  - apply Z.ltb_lt in E.
+    pose proof (iterate_Iter (S (length (adj_es ns))) (to_part total ns)
+                  (wsum (adj_es ns)) (adj_es ns)) as HI.
+    destruct (iter_work _ _ _ _ _ HI E (Pre_adj ns Hnn (proj1 Hok)) (Nat.lt_succ_diag_r _))
+      as [Hsum|Hmet].
+    + left. rewrite (redistribution_sum total ns Hok), redistribution_eq.
+      apply Z.ltb_lt in E. rewrite E. rewrite map_app, sumZ_app.
+      pose proof (init_split_sum ns). lia.
+    + right. apply forallb_forall. intros n Hn. unfold satisfied.
+      destruct (needs_adjust n) eqn:En; [|reflexivity].
+      destruct (pos_weight n) eqn:Ep; [|reflexivity]. cbn [negb orb].
+      assert (He : In (n, init_runtime n) (adj_es ns)) by (apply adj_In; cbn [fst snd]; auto).
+      destruct (iter_bounds _ _ _ _ _ HI (adj_unsat ns) _ He) as [r [Hr _]]. cbn [fst] in Hr.
+      pose proof (Hmet _ Hr Ep) as Hreq. cbn [fst snd] in Hreq.
+      rewrite (obs_get_redistribution total ns n r Hok Hn).
+      * apply Z.eqb_eq. exact Hreq.
+      * rewrite redistribution_eq. apply Z.ltb_lt in E. rewrite E.
+        apply in_or_app. right. exact Hr.
+  - left. apply Z.ltb_ge in E.
+    rewrite (redistribution_sum total ns Hok), redistribution_eq.
+    apply Z.ltb_ge in E. rewrite E. rewrite init_snd. apply Z.ltb_ge in E. lia.
+Qed.
+
+(* clause 5 *)
+Lemma fair_proved total ns :
+  wnn ns -> names_ok ns -> fair ns (obs_of ns (redistribution total ns)).
+Proof.
+  intros Hnn Hok a b Ha Hb Hsa Hsb.
+  unfold still_short in Hsa, Hsb.
+  apply andb_prop in Hsa. destruct Hsa as [Hsa Hla]. apply andb_prop in Hsa. destruct Hsa as [Hna _].
+  apply andb_prop in Hsb. destruct Hsb as [Hsb Hlb]. apply andb_prop in Hsb. destruct Hsb as [Hnb _].
+  apply Z.ltb_lt in Hla, Hlb.
+  pose proof (Hnn a Ha) as Hwa. pose proof (Hnn b Hb) as Hwb.
+  pose proof (needs_adjust_true a Hna) as [Hia _]. pose proof (needs_adjust_true b Hnb) as [Hib _].
+  destruct (0 <? to_part total ns) eqn:E.
+  - pose proof (iterate_Iter (S (length (adj_es ns))) (to_part total ns)
+                  (wsum (adj_es ns)) (adj_es ns)) as HI.
+    assert (Hea : In (a, init_runtime a) (adj_es ns)) by (apply adj_In; cbn [fst snd]; auto).
+    assert (Heb : In (b, init_runtime b) (adj_es ns)) by (apply adj_In; cbn [fst snd]; auto).
+    destruct (iter_bounds _ _ _ _ _ HI (adj_unsat ns) _ Hea) as [ra [Hra _]].
+    destruct (iter_bounds _ _ _ _ _ HI (adj_unsat ns) _ Heb) as [rb [Hrb _]].
+    cbn [fst] in Hra, Hrb.
+    assert (Hoa : obs_get (obs_of ns (redistribution total ns)) a = ra).
+    { apply obs_get_redistribution; auto. rewrite redistribution_eq, E.
+      apply in_or_app. right. exact Hra. }
+    assert (Hob : obs_get (obs_of ns (redistribution total ns)) b = rb).
+    { apply obs_get_redistribution; auto. rewrite redistribution_eq, E.
+      apply in_or_app. right. exact Hrb. }
+    rewrite Hoa, Hob in *.
+    pose proof (iter_fair _ _ _ _ _ HI (Pre_adj ns Hnn (proj1 Hok)) _ _ ra rb Hea Heb Hra Hrb Hla Hlb)
+      as HF.
+    cbn [fst snd] in HF. rewrite Hia, Hib in HF.
+    pose proof (adj_length ns) as Hlen.
+    assert (Z.of_nat (length (adj_es ns)) * (weight a + weight b)
+            <= Z.of_nat (length ns) * (weight a + weight b)) by nia.
+    lia.
+  - assert (Hoa : obs_get (obs_of ns (redistribution total ns)) a = init_runtime a).
+    { apply obs_get_redistribution; auto. rewrite redistribution_eq, E.
+      apply init_In. cbn [fst snd]. auto. }
+    assert (Hob : obs_get (obs_of ns (redistribution total ns)) b = init_runtime b).
+    { apply obs_get_redistribution; auto. rewrite redistribution_eq, E.
+      apply init_In. cbn [fst snd]. auto. }
+    rewrite Hoa, Hob, Hia, Hib, !Z.sub_diag. cbn [Z.mul Z.sub Z.abs Z.opp Z.add]. nia.
+Qed.
+
+(* ---------- the capstone ---------- *)
+Lemma model_satisfies_spec total ns :
+  in_range total ns = true -> names_ok ns ->
+  C02_holds total ns (obs_of ns (redistribution total ns)).
+Proof.
+  intros Hr Hok. pose proof (in_range_wnn total ns Hr) as Hnn.
+  split; [apply obs_of_length|].
+  split; [apply bounds_proved, Hok|].
+  split; [apply conservation_proved; assumption|].
+  split; [apply work_conserving_proved; assumption|].
+  apply fair_proved; assumption.
 Qed.
